@@ -349,6 +349,26 @@ def rule_partition(ctx, rep, rid="C09.partition"):
                 else:
                     rep.unk(rid, inst_, "value stored to nr_cpus_mask not recognised: %s" % ir.expr_str(v))
         pat.require(nst >= 1, "no writer of nr_cpus_mask found")
+    # ... the thread count is min(nr_cpus_mask + 1, len >> k) or 1 (all powers of two), and partition_len = len >> order(thread count)
+    co = [c_ for c_ in f.calls() if c_.callee and c_.callee.endswith("get_count_order_ulong")]
+    lnst = [s_ for s_ in pat.stores(f, "partition_resize_work.len")]
+    if co and lnst:
+        nt = ir.expr(f, co[0].args[0], 10)
+        offs = [z for z in ir.subexprs(nt) if z[0] == "bin" and z[1] in ("add", "sub") and z[2][0] == "load" and z[2][1] == "@nr_cpus_mask"]
+        badoff = [z for z in offs if not ((z[1] == "add" and z[3] == ("c", 1)) or (z[1] == "sub" and z[3] == ("c", -1)))]
+        shifts = [z for z in ir.subexprs(nt) if z[0] == "bin" and z[1] in ("shl", "lshr", "ashr") and z[2] == ("arg", 2)]
+        if not offs:
+            rep.unk(rid, "helper.thread-count=cpus", "the thread count %s is not derived from nr_cpus_mask in a way this rule recognises" % ir.expr_str(nt)[:120])
+        else:
+            rep.check(not badoff, rid, "helper.thread-count=cpus", "the thread count is taken from nr_cpus_mask + 1",
+                      "the thread count is computed from %s: not a power of two, so nr_threads * (len >> order(nr_threads)) does not cover the level" % [ir.expr_str(z) for z in badoff][:1], [co[0].where()])
+        rep.check(all(z[1] == "lshr" for z in shifts), rid, "helper.thread-count<=len", "the thread count is capped by len >> k", "the cap on the thread count is %s" % [ir.expr_str(z) for z in shifts if z[1] != "lshr"][:1], [co[0].where()])
+        pl = ir.expr(f, lnst[0].args[0], 6)
+        okpl = pl[0] == "bin" and pl[1] == "lshr" and pl[2] == ("arg", 2) and pl[3][0] == "call" and pl[3][1].endswith("get_count_order_ulong")
+        if okpl or not (pl[0] == "bin" and pl[1] in ("shl", "lshr", "ashr", "mul") and pl[2] == ("arg", 2)):
+            rep.check(okpl, rid, "helper.partition_len", "partition_len = len >> order(thread count)", "", [lnst[0].where()]) if okpl else rep.unk(rid, "helper.partition_len", "partition_len = %s: shape not recognised" % ir.expr_str(pl)[:120])
+        else:
+            rep.bad(rid, "helper.partition_len", "partition_len = %s: the partitions do not tile [0, len) (buckets beyond the level are written, or part of it is skipped)" % ir.expr_str(pl), [lnst[0].where()])
     # partitions: work[t] = (t * partition_len, partition_len)
     st = [s_ for s_ in pat.stores(f, "partition_resize_work.start")]
     ln = [s_ for s_ in pat.stores(f, "partition_resize_work.len")]
